@@ -122,7 +122,9 @@ func (rl *Shell) endOfHistory() {
 		return
 	}
 
-	rl.History.Walk(-history.Len() + 1)
+	// Further down than any position in the history: the walk
+	// then stops on (or does not leave) the line being entered.
+	rl.History.Walk(-history.Len() - 2)
 }
 
 // Execute the current line, and push the next history event on the buffer stack.
